@@ -38,8 +38,11 @@ def _ensure_one(modname, make_parser, force_parse):
     leaf = modname.rpartition(".")[2]
     cached = os.path.join(TABDIR, leaf + ".py")
     os.makedirs(TABDIR, exist_ok=True)
-    with open(os.path.join(TABDIR, ".lock"), "w") as lk:
-        fcntl.flock(lk, fcntl.LOCK_EX)
+    # No exclusive lock: validation only reads the cached module, regeneration happens in a private
+    # temporary directory and the result is moved into place atomically.  (An exclusive lock made every
+    # concurrently starting check wait for all the others' 1-2 s validation.)  The worst case is that
+    # two processes regenerate the same table at the same time.
+    if True:
         if os.path.exists(cached):
             _load_as(modname, cached)
             old_sig = getattr(sys.modules[modname], "_lr_signature", None)
